@@ -115,6 +115,18 @@ theorem infoLine_ok_of_syn (endRe : Re) (l : InfoLine) (pieces : List Text) (h :
     have := tagLineOK_of_syn endRe _ s pieces h1
     simp only [InfoLine.forLic, InfoLine.forCon, InfoLine.forCpr, TextLine.ok, CprLine.ok, CprLine.quietOther,
       this, h2, hnb, hign, noticeFree_of_headFree endRe _ h3, Bool.and_self]
+  | licF s ws =>
+    simp only [Bool.and_eq_true] at hk
+    obtain ⟨⟨h1, h2⟩, h3⟩ := hk
+    have := tagLineFramedOK_of_syn endRe _ s ws pieces h1
+    simp only [InfoLine.forLic, InfoLine.forCon, InfoLine.forCpr, TextLine.ok, CprLine.ok, CprLine.quietOther,
+      this, h2, hnb, hign, noticeFree_of_headFree endRe _ h3, Bool.and_self]
+  | conF s ws =>
+    simp only [Bool.and_eq_true] at hk
+    obtain ⟨⟨h1, h2⟩, h3⟩ := hk
+    have := tagLineFramedOK_of_syn endRe _ s ws pieces h1
+    simp only [InfoLine.forLic, InfoLine.forCon, InfoLine.forCpr, TextLine.ok, CprLine.ok, CprLine.quietOther,
+      this, h2, hnb, hign, noticeFree_of_headFree endRe _ h3, Bool.and_self]
   | cpr x y hh pre trail =>
     simp only [Bool.and_eq_true] at hk
     obtain ⟨⟨⟨⟨h1, h2⟩, h3⟩, h4⟩, h5⟩ := hk
@@ -198,7 +210,8 @@ theorem infoOfDecoded_of_extract (parses : Text → Bool) (t : Text) (e : Extrac
 /-- the text of the non-vacuity examples:
     `#!/bin/sh` / `# SPDX-FileCopyrightText: 2020 Jane Doe <jane@example.org>` / `# SPDX-License-Identifier: MIT` /
     `x = "unclosed` / `/* SPDX-FileContributor: Alice */` / ` * Copyright (C) 2019-2021 Example Corp -->` /
-    `// SPDX-License-Identifier: \t(MIT OR X) ` / `# SPDX-License-Identifier: MIT` / `` -/
+    `// SPDX-License-Identifier: \t(MIT OR X) ` / `# SPDX-License-Identifier: MIT` /
+    `|*  SPDX-License-Identifier: Apache-2.0  *|` / `` -/
 def exampleLines : List (InfoLine × List Text) :=
   [(.other "#!/bin/sh".toList, []),
    (.cpr ("SPDX-FileCopyrightText:".toList, .spdx, []) (.single "2020".toList) "Jane Doe <jane@example.org>".toList
@@ -210,6 +223,7 @@ def exampleLines : List (InfoLine × List Text) :=
       "Example Corp".toList " * ".toList " -->".toList, [" ".toList, "-->".toList]),
    (.lic ⟨"// ".toList, " \t".toList, "(MIT OR X)".toList, " ".toList⟩, [" ".toList]),
    (.lic ⟨"# ".toList, " ".toList, "MIT".toList, []⟩, []),
+   (.licF ⟨"|*  ".toList, " ".toList, "Apache-2.0".toList, []⟩ "  ".toList, []),
    (.other [], [])]
 
 theorem exampleLines_syn : ∀ p ∈ exampleLines, p.1.syn Generated.endRe p.2 = true := by decide +kernel
